@@ -69,6 +69,16 @@ sig = module(defs=[
     T('A', [], [F('x', u32)]),
     T('B', [], [vftable([], [fn(True, 'f', [], [SELF], None)])])],
     impls=[impl('A', [], [af('g', 4096, args=(SELF, arg('p', ty_cptr(ty_id('BVftable')))))])])
+# found by the Lean proof of C20.explicit_address_e2e (Witness in Props/C20E2E.lean): the generated a::FooVftable appears DURING the
+# run and takes over the name `FooVftable` from the by-name import of b::FooVftable, so the first attempt on c::T sees a different layout
+# than the final one; with the redundant #[address(8)] that first attempt is a hard error, unless a::Foo happens to be attempted first
+shadow = [modent(path('d'), module(defs=[T('Late', [], [F('v', u32)])])),
+          modent(path('a'), module(defs=[T('Foo', [], [vftable([], [fn(True, 'f', [], [SELF], None)])])])),
+          modent(path('c'), module(uses=[path('b', 'FooVftable'), path('a', 'FooVftable'), path('d', 'Late')],
+                                   defs=[T('T', [], [F('x', ty_id('FooVftable')), F('y', u32, [a_int('address', 8)]), F('z', ty_id('Late'))])])),
+          modent(path('b'), module(defs=[T('FooVftable', [], [F('x', u64), F('y', u64)])]))]
+W['C09/generated_shadows_import'] = case('generated-shadows-import', 8, shadow,
+    prio=[path('b', 'FooVftable'), path('c', 'T'), path('a', 'Foo'), path('d', 'Late')])
 W['C09/sig'] = one(sig, 'generated-vftable-in-signature', prio=[path('m', 'A'), path('m', 'B')])
 
 # --- C13: accepted by pyxis, rejected by rustc (open findings); ps 8 so that the host compiler can be used
@@ -85,6 +95,8 @@ W['C07/underscore_base_fn'] = W['C13/internal_forwarder']
 W['C19/module_path_becomes_type'] = case('module-path-becomes-type', 8, [modent(path('a', 'b'), module(defs=[
     T('b', [], [F('x', u32)]), T('U', [], [F('t', ty_id('b'))])]))],
     extras=[[S('fseed'), 1], [S('observe-hint'), path('a', 'b')], [S('witness-module-path-becomes-type')]])
+W['C10/own_vftable_field'] = one(module(defs=[T('N', [], [vftable([], [fn(True, 'vf', [], [SELF], None)]), F('pv', ty_cptr(ty_id('NVftable')))])]),
+    'own-vftable-in-field', ps=8, extras=[[S('witness-own-vftable-in-field')]])
 W['C13/rename_clash'] = one(module(defs=[
     T('A', [], [F('x', u32)]), T('B', [], [F('y', u32)]),
     T('D', [], [F('a', ty_id('A'), [a_ident('base')]), F('b', ty_id('B'), [a_ident('base')])])],
